@@ -587,6 +587,6 @@ func init() {
 		},
 		Real: histReal, Stub: histStub,
 		Assumptions: []string{"a second MAIL inside a transaction and the placement of VRFY/NOOP are not judged", "'signalled by Reset' is judged as: at least one Reset between a transaction end and the next envelope callback"},
-		QuickRuns:   60000, ThoroughRuns: 3000000,
+		QuickRuns:   250000, ThoroughRuns: 6000000,
 	})
 }
